@@ -7,7 +7,6 @@ import (
 	"encoding/json"
 	"flag"
 	"fmt"
-	"log"
 	"os"
 	"path/filepath"
 	"sync"
@@ -18,6 +17,12 @@ import (
 	"verif/harness/ndj"
 	_ "verif/harness/quiet"
 )
+
+// die reports a machinery failure on stderr (the log package is silenced in harness runs)
+func die(err error) {
+	fmt.Fprintln(os.Stderr, "psim:", err)
+	os.Exit(3)
+}
 
 func main() {
 	in := flag.String("schedules", "schedules.ndjson", "NDJSON file, one schedule per line")
@@ -31,7 +36,7 @@ func main() {
 	if *tables != "" {
 		b, _ := json.MarshalIndent(swap.VerifTables(), "", " ")
 		if err := os.WriteFile(*tables, b, 0o644); err != nil {
-			log.Fatal(err)
+			die(err)
 		}
 		return
 	}
@@ -41,7 +46,7 @@ func main() {
 	}
 	f, err := os.Open(*in)
 	if err != nil {
-		log.Fatal(err)
+		die(err)
 	}
 	var scheds []*l1.Schedule
 	sc := bufio.NewScanner(f)
@@ -52,9 +57,12 @@ func main() {
 		}
 		s := &l1.Schedule{}
 		if err := json.Unmarshal(sc.Bytes(), s); err != nil {
-			log.Fatalf("bad schedule: %v: %s", err, sc.Text())
+			die(fmt.Errorf("bad schedule: %v: %.300s", err, sc.Text()))
 		}
 		scheds = append(scheds, s)
+	}
+	if err := sc.Err(); err != nil {
+		die(err)
 	}
 	f.Close()
 	if *tmp == "" {
@@ -78,7 +86,7 @@ func main() {
 				p := filepath.Join(*tmp, fmt.Sprintf("part-%06d.ndjson", i))
 				w, err := ndj.NewWriter(p)
 				if err != nil {
-					log.Fatal(err)
+					die(err)
 				}
 				if cfg.Retransmit {
 					// only C22 schedules use real-time retransmission ticks
@@ -98,13 +106,13 @@ func main() {
 	wg.Wait()
 	o, err := os.Create(*out)
 	if err != nil {
-		log.Fatal(err)
+		die(err)
 	}
 	bw := bufio.NewWriterSize(o, 1<<20)
 	for _, p := range parts {
 		b, err := os.ReadFile(p)
 		if err != nil {
-			log.Fatal(err)
+			die(err)
 		}
 		bw.Write(b)
 		os.Remove(p)
